@@ -179,6 +179,11 @@ func (s *Schema) Validate(document jschema.Document) (err error) {
 }
 
 func (s *Schema) validate(document jschema.Document) error {
+	if s.inner.RootNode() == nil {
+		// A schema without an EXAMPLE has nothing to validate against.
+		return errors.NewDocumentError(s.file, errors.ErrEmptySchema)
+	}
+
 	tree := validator.NewTree(
 		validator.NodeValidatorList(s.inner.RootNode(), *s.inner, nil),
 	)
